@@ -56,6 +56,7 @@ struct Stats
 {
   bool var;
   int W, p;
+  int shift = 0;          // magnitude class: truncated samples are multiples of 2^shift precision units
   std::unique_ptr<OnlineAverage> avg;
   std::unique_ptr<OnlineVariance> vr;
   long long n = 0;        // the harness's own count of samples since the last reset (input knowledge)
@@ -70,7 +71,7 @@ struct Stats
       if (viaSetter) {avg->setWindowSize(W);}
     }
   }
-  Stats(const Stats & o) : var(o.var), W(o.W), p(o.p), n(o.n), maxabs(o.maxabs)
+  Stats(const Stats & o) : var(o.var), W(o.W), p(o.p), shift(o.shift), n(o.n), maxabs(o.maxabs)
   {
     if (o.avg) {avg.reset(new OnlineAverage(*o.avg));}
     if (o.vr) {vr.reset(new OnlineVariance(*o.vr));}
@@ -78,7 +79,12 @@ struct Stats
   OnlineAverage & a() {return var ? *vr : *avg;}
   std::string update(long long q)
   {
-    double value = (q / 4.0) * PREC[p];
+    // truncated sample = Trunc0(q) * 2^shift precision units; the fractional quarter keeps the product
+    // value * multiplier away from an integer for decimal precisions
+    const double U = std::ldexp(1.0, shift);
+    long long aq = q < 0 ? -q : q;
+    double mag = (double)(aq / 4) * U + (aq % 4) / 4.0;
+    double value = (q < 0 ? -mag : mag) * PREC[p];
     if (var) {vr->update(value);} else {avg->update(value);}
     ++n;
     maxabs = std::max(maxabs, std::fabs(q / 4.0) + 1);
@@ -87,12 +93,12 @@ struct Stats
     vh::Ev e("update");
     e.i("q", q).b("avail", a().isAvailable());
     bool ex = false;
-    long long s = projScaled(a().getAverage() * M * k, k * maxabs, ex);
+    long long s = projScaled(a().getAverage() * M * k / U, k * maxabs, ex);
     e.i("sum", s).b("sumExact", ex);
     bool hasVar = var && n >= W;
     long long v = 0; bool vex = false;
     if (hasVar) {
-      v = projScaled(vr->getVariance() * M * M * W * (W - 1.0), double(W) * W * maxabs * maxabs, vex);
+      v = projScaled(vr->getVariance() * M * M * W * (W - 1.0) / (U * U), double(W) * W * maxabs * maxabs, vex);
     }
     e.b("hasVar", hasVar).i("var", v).b("varExact", vex);
     return e.done();
@@ -179,9 +185,11 @@ static void randomStats(vh::Rng & r, vh::Out & so)
   int W = (int)(r.coin(1, 3) ? r.range(var ? 2 : 1, 6) : r.range(var ? 2 : 1, 64));
   int p = (int)r.range(0, NPREC - 1);
   Stats o(var, W, p, r.coin(1, 4));
-  so.put(vh::Ev("Reset").str("kind", var ? "var" : "avg").i("W", W).i("p", p));
+  o.shift = (int)r.pick(std::vector<int>{0, 0, 10, 20});       // |value|/precision up to 200, 2e5, 1e8
+  so.put(vh::Ev("Reset").str("kind", var ? "var" : "avg").i("W", W).i("p", p).i("shift", o.shift));
   int len = (int)r.range(0, 10 * W);
   int mag = (int)r.pick(std::vector<int>{3, 20, 200});
+  if (o.shift == 20) {mag = (int)r.pick(std::vector<int>{3, 20, 95});}
   int resetEvery = (int)r.range(1, 3 * W + 3);
   for (int s = 0; s < len; ++s) {
     if (r.range(0, resetEvery) == 0) {so.puts(o.reset()); continue;}
